@@ -671,27 +671,32 @@ func c11Shapes(c *Ctx) {
 		// the other direction: with repair enabled, every kind of cache is wrapped.  The wrapping
 		// must stay reachable when the cache store is not a plain local directory (the edges on
 		// which a type assertion of the cache to a concrete store type succeeded are removed)
-		typeOK := map[edge]bool{}
-		for _, b := range fn.Blocks {
-			iff := lastIf(b)
-			if iff == nil {
-				continue
-			}
-			cond := stripNot(iff.Cond)
-			ex, isEx := cond.(*ssa.Extract)
-			if !isEx || ex.Index != 1 {
-				continue
-			}
-			if ta, isTA := ex.Tuple.(*ssa.TypeAssert); isTA && ta.CommaOk && !types.IsInterface(ta.AssertedType) {
-				if cond == iff.Cond {
-					typeOK[edge{b, b.Succs[0]}] = true
-				} else {
-					typeOK[edge{b, b.Succs[1]}] = true
+		typeOKOf := func(owner *ssa.Function) map[edge]bool {
+			typeOK := map[edge]bool{}
+			for _, b := range owner.Blocks {
+				iff := lastIf(b)
+				if iff == nil {
+					continue
+				}
+				cond := stripNot(iff.Cond)
+				ex, isEx := cond.(*ssa.Extract)
+				if !isEx || ex.Index != 1 {
+					continue
+				}
+				if ta, isTA := ex.Tuple.(*ssa.TypeAssert); isTA && ta.CommaOk && !types.IsInterface(ta.AssertedType) {
+					if cond == iff.Cond {
+						typeOK[edge{b, b.Succs[0]}] = true
+					} else {
+						typeOK[edge{b, b.Succs[1]}] = true
+					}
 				}
 			}
+			return typeOK
 		}
 		for _, call := range calls(fn, named("desync.NewRepairableCache")) {
-			r := reachable(fn, typeOK)
+			// (the wrapping may have been moved into a helper: judged in the function it stands in)
+			owner := call.(ssa.Instruction).Parent()
+			r := reachable(owner, typeOKOf(owner))
 			c.verdict(r[call.(ssa.Instruction).Block()], "cmd.MultiStoreWithCache:repair-any-cache", call.Pos(), "the cache is wrapped for repair whatever kind of store it is", "the cache is wrapped by RepairableCache only when it is of one concrete store type: for every other cache (http, s3, sftp, a de-duplicating wrapper) --cache-repair is silently ignored, an invalid cached chunk fails the request instead of being refetched")
 		}
 	}
